@@ -3,6 +3,10 @@
 package hashprefix
 
 import (
+	"fmt"
+	"go/ast"
+	"go/parser"
+	"go/token"
 	"crypto/sha256"
 	"encoding/hex"
 	"errors"
@@ -108,11 +112,8 @@ func c19Dump(c *Checker, baseSec int64) (out []string) {
 		it := reflect.NewAt(itemT, unsafe.Pointer(uintptr(p)-usedF.Offset)).Elem()
 		key := it.FieldByName("key").Bytes()
 		val := it.FieldByName("value").Bytes()
-		ci := toCacheItem(val)
-		out = append(out, vutil.Hex(string(key)), vutil.Itoa(int(ci.expiry.Unix()-baseSec)), vutil.Itoa(len(ci.hashes)))
-		for _, h := range ci.hashes {
-			out = append(out, hex.EncodeToString(h[:]))
-		}
+		// the raw bytes as fromCacheItem wrote them
+		out = append(out, vutil.Hex(string(key)), vutil.Hex(string(val)))
 		n++
 	}
 
@@ -137,8 +138,31 @@ func c19Hash(s string) (h hostnameHash) {
 }
 
 // c19Run executes one line on the real Checker.
+// c19Consts reports the constants of the package; subDomainNum is local to
+// hostnameToHashes and is read from the source.
+func c19Consts() string {
+	sub := "?"
+	fset := token.NewFileSet()
+	if file, err := parser.ParseFile(fset, "hashprefix.go", nil, 0); err == nil {
+		ast.Inspect(file, func(n ast.Node) bool {
+			vs, ok := n.(*ast.ValueSpec)
+			if ok && len(vs.Names) == 1 && vs.Names[0].Name == "subDomainNum" && len(vs.Values) == 1 {
+				if lit, isLit := vs.Values[0].(*ast.BasicLit); isLit {
+					sub = lit.Value
+				}
+			}
+
+			return true
+		})
+	}
+
+	return fmt.Sprintf("%d %d %d %s %d", prefixLen, hashSize, hexSize, sub, expirySize)
+}
+
 func c19Run(f []string) []string {
 	switch f[0] {
+	case "C19.consts":
+		return []string{c19Consts()}
 	case "C19.reset":
 		ttl, size, suffix := vutil.Atoi(f[1]), vutil.Atoi(f[2]), vutil.Unhex(f[3])
 		n := vutil.Atoi(f[4])
@@ -156,7 +180,7 @@ func c19Run(f []string) []string {
 		}
 		c19BaseSec = time.Now().Unix()
 
-		return []string{"ok"}
+		return []string{"ok", vutil.Itoa(int(c19BaseSec))}
 	case "C19.sleep":
 		time.Sleep(time.Duration(vutil.Atoi(f[1])))
 
@@ -285,6 +309,7 @@ func c19BuildUniverse() (u *c19Univ) {
 }
 
 func c19Gen(r *rand.Rand, emit vutil.Emit) {
+	emit("C19.consts")
 	u := c19BuildUniverse()
 	blocks := vutil.N(500)
 	ttls := []int{0, 1, 500_000_000, 1_000_000_000, 1_500_000_000, 2_000_000_000, 600_000_000_000}
